@@ -361,6 +361,10 @@ class ItemList:
         to_drop = ["item_id", "item_num"]
 
         fields = {c: tbl.field(c) for c in names if c not in to_drop}
+        if len(tbl):
+            # a column that is entirely null stands for a field (or rank) this list
+            # does not have: to_arrow pads lists to a common schema with such columns
+            fields = {c: a for (c, a) in fields.items() if a.null_count < len(a)}
         items = cls(
             item_ids=ids,  # type: ignore
             item_nums=nums,  # type: ignore
